@@ -1076,6 +1076,333 @@ def links_part(ck, rng, stats, d_inc, d_exc, thorough):
     stats["disagreements"] += nviol
 
 
+# ---------------------------------------------------------------------------------------
+# part F: symbolic links x working directory x spelling of the target
+# ---------------------------------------------------------------------------------------
+# What a link points to is a fact of the file system (a relative link text is read from the directory that holds the link), never of
+# the directory the command is typed in.  Every tree below is analysed through the whole matrix of working directories and spellings:
+# the analysed set and total_files must be the same everywhere.  Whether a link to a file belongs to the set at all is C18-G1's
+# business: the common set is compared with the specification afterwards and attributed to G1 through its existing match.
+LM_CHAIN = [(), ("pkg",), ("pkg", "deep"), ("pkg", "deep", "er")]
+
+
+def lm_tree(base, link_depths):
+    """A project whose directories at depth 0..3 (proj, proj/pkg, proj/pkg/deep, proj/pkg/deep/er) each hold real.py, plain.py,
+    notes.txt and shared/{util.py, more/u2.py}; the directories at link_depths also hold every kind of link, each with a relative and
+    with an absolute link text: to a .py file of the same directory, of a directory below, of the sibling directory through '..'
+    (outside the project for depth 0), outside the project, to another link, to a text file under a Python name and to a Python file
+    under another name, dangling ones (same directory, through '..', a missing directory), and links to directories (plain name and
+    Python file name; below, through '..', outside).  Returns (root, entries, elsewhere, link directories)."""
+    root = os.path.join(base, "proj")
+    outside = os.path.join(base, "outside")
+    elsewhere = os.path.join(base, "elsewhere", "wd")
+    os.makedirs(elsewhere)
+    materialize(outside, [("F", "o.py"), ("D", "odir", [("F", "x.py")])])
+    materialize(os.path.join(base, "shared"), [("F", "util.py"), ("D", "more", [("F", "u2.py")])])     # what ../shared is from depth 0
+
+    def shared():
+        return ("D", "shared", [("D", "more", [("F", "u2.py")]), ("F", "util.py")])
+
+    def links(d):
+        here = os.path.join(root, *LM_CHAIN[d])
+        up_out = "/".join([".."] * (d + 1))
+        specs = [  # (name, link text relative to the link's directory, kind, entries behind a directory link)
+            ("alias.py", "real.py", "file", []), ("ext.py", "../shared/util.py", "file", []), ("down.py", "shared/more/u2.py", "file", []),
+            ("out.py", up_out + "/outside/o.py", "file", []), ("dot.py", "./real.py", "file", []), ("chain.py", "r_alias.py", "file", []),
+            ("note.txt", "real.py", "file", []), ("lnk.pyi", "plain.py", "file", []), ("test_lnk.py", "real.py", "file", []),
+            ("gone.py", "nothing.py", "dangling", []), ("gone2.py", "../nothing.py", "dangling", []), ("gone3.pyi", "nodir/x.py", "dangling", []),
+            ("dl", "shared", "dir", [("D", "more", [("F", "u2.py")]), ("F", "util.py")]),
+            ("dl_up", "../shared", "dir", [("D", "more", [("F", "u2.py")]), ("F", "util.py")]),
+            ("dl_out", up_out + "/outside/odir", "dir", [("F", "x.py")]),
+            ("mod.py", "shared/more", "dir", [("F", "u2.py")])]
+        out = []
+        for name, text, kind, entries in specs:
+            out.append(("L", "r_" + name, kind, entries, text))
+            out.append(("L", "a_" + name, kind, entries, os.path.normpath(os.path.join(here, text))))
+        return out
+
+    def build(d):
+        cs = [("F", "real.py"), ("F", "plain.py"), ("F", "notes.txt"), shared()]
+        if d in link_depths:
+            cs += links(d)
+        if d + 1 < len(LM_CHAIN):
+            cs.append(("D", LM_CHAIN[d + 1][-1], build(d + 1)))
+        return sorted(cs, key=lambda c: c[1].encode())
+
+    def mat(path, children):
+        os.makedirs(path, exist_ok=True)
+        for c in children:
+            p = os.path.join(path, c[1])
+            if c[0] == "F":
+                with open(p, "w") as f:
+                    f.write(PY_BODY)         # notes.txt too: a link with a Python name may point to it
+            elif c[0] == "D":
+                mat(p, c[2])
+            else:
+                os.symlink(c[4], p)
+    children = build(0)
+    mat(root, children)
+    return root, children, elsewhere, [LM_CHAIN[d] for d in sorted(link_depths)]
+
+
+def lm_matrix(root, target, cwds):
+    """(cwd, spelling) for the directory target from every working directory: relative, absolute, './', trailing slash, and through
+    '..' (../<cwd's name>/rel, <real subdirectory>/../rel).  No spelling passes through a link."""
+    out = []
+    for cwd in cwds:
+        rel = os.path.relpath(target, cwd)
+        vs = [rel, target, rel + "/", target + "/"]
+        if not rel.startswith("."):
+            vs += ["./" + rel, "./" + rel + "/"]
+        if cwd != "/":
+            vs.append("../" + os.path.basename(cwd) + "/" + rel)
+        if os.path.isdir(os.path.join(cwd, "shared")) and not os.path.islink(os.path.join(cwd, "shared")):
+            vs.append("shared/../" + rel)
+        for v in vs:
+            if (cwd, v) not in out:
+                out.append((cwd, v))
+    return out
+
+
+def lm_majority(sets):
+    keys = [json.dumps(s) for s in sets]
+    best = max(sorted(set(keys)), key=keys.count)
+    return keys.index(best)
+
+
+def link_matrix_part(ck, rng, stats, d_inc, d_exc, thorough):
+    base = lib.fresh_dir("c18_linkmatrix")
+    trees = []
+    for k, depths in enumerate([{0}, {1}, {2}, {3}, {0, 1, 2, 3}]):
+        trees.append(lm_tree(os.path.join(base, "m%d" % k), depths))
+    cfgs = [(d_inc, d_exc, True), (["**/*.py", "*.pyi"], ["a_*"], True), (d_inc, d_exc, False), (["*.py"], ["**/shared/**", "r_d*"], True)]
+    groups = []      # (tree index, root, children, targets as absolute locations, cfg, [(cwd, spelled targets)])
+    for ti, (root, children, elsewhere, ldirs) in enumerate(trees):
+        deepest = ldirs[-1]
+        chain = [c for c in LM_CHAIN if c == deepest[:len(c)]]        # the directories at or above the deepest link directory
+        for tp in chain:
+            target = os.path.join(root, *tp) if tp else root
+            cwds = [target, os.path.dirname(target), os.path.join(root, *deepest), root, elsewhere, os.path.dirname(root),
+                    os.path.join(os.path.dirname(root), "outside"), os.path.join(root, *(deepest + ("shared",))), "/"]
+            cwds += [os.path.join(root, *l) for l in ldirs]
+            cwds = [c for i, c in enumerate(cwds) if c not in cwds[:i]]
+            matrix = lm_matrix(root, target, cwds)
+            for ci, cfg in enumerate(cfgs):
+                if not thorough and ci >= 2 and (ti + len(tp) + ci) % 2:
+                    continue
+                groups.append((ti, root, children, [target], cfg, [(cwd, [sp]) for cwd, sp in matrix]))
+            # 'each file once': the target and the link directory inside it (both orders), the target twice in two spellings
+            ldir = os.path.join(root, *deepest)
+            for order in ([target, ldir], [ldir, target], [target, target]):
+                runs = []
+                for cwd in cwds:
+                    for style in range(3):
+                        sps = []
+                        for j, t in enumerate(order):
+                            rel = os.path.relpath(t, cwd)
+                            forms = [rel, t, rel + "/"]
+                            sps.append(forms[(style + j) % 3] if order[0] == order[1] else forms[style])     # the same place twice: in two spellings
+                        runs.append((cwd, sps))
+                groups.append((ti, root, children, order, cfgs[0], runs))
+    reqs = [{"op": "collect", "cwd": cwd, "targets": tg, "include": cfg[0], "exclude": cfg[1], "recursive": cfg[2]}
+            for _, _, _, _, cfg, runs in groups for cwd, tg in runs]
+    res = lib.driver(reqs)
+    # model (what the code sees: links are leaves, dangling ones skipped) and specification (follow_symlinks = false: no links),
+    # once per group in the plainest spelling; both are proved to be independent of spelling and working directory
+    # (locations are printed relative to the project root: printing long paths is what costs in Coq); a group with several targets
+    # covers the same places as its first group with one target: it is compared with that one
+    defs, items, single = [], [], [g for g in groups if len(g[3]) == 1]
+    for ti, root, children, targets, cfg, runs in single:
+        if not any(d.startswith("Definition lw%d " % ti) for d in defs):
+            defs.append("Definition lw%d := %s." % (ti, clnode(lworld(root, children))))
+        rootn = [p for p in root.split("/") if p]
+        args = "%s %s %s %s %s" % (cstrs(rootn), clist([cspath(t) for t in targets]), cbool(cfg[2]), cstrs(cfg[0]), cstrs(cfg[1]))
+        items.append("(option_map (fun ps => map (fun p => skipn %d (segs (abs %s p))) ps) (collect_python_files (code_world lw%d) %s), "
+                     "map (skipn %d) (analyzed_spec false lw%d %s))" % (len(rootn), cstrs(rootn), ti, args, len(rootn), ti, args))
+    jobs = [("C18_linkmatrix_%d" % off, REQ_LINKS, "\n".join(defs) + "\nEval vm_compute in %s.\n" % clist(items[off:off + 3]))
+            for off in range(0, len(items), 3)]
+    svals = [v for out in lib.coq_eval_many(jobs, workers=16) for v in lib.parse_coq_values(out)[0]]
+    by_target = {}
+    for g, v in zip(single, svals):
+        by_target.setdefault((g[0], g[3][0], json.dumps(g[4])), v)
+    vals = [by_target[(g[0], g[3][0] if len(g[3]) == 1 else min(g[3], key=len), json.dumps(g[4]))] for g in groups]
+    nviol = 0
+    pos = 0
+    st = {"groups": 0, "runs": 0, "cli_runs": 0, "multi_target_groups": 0, "links_in_common_sets": 0, "max_matrix": 0}
+
+    def is_link(loc):
+        return os.path.islink(loc)
+
+    def cmdline(cwd, tg, cfg):
+        return "cd %s && CollectPythonFiles(%s, recursive=%s, include=%s, exclude=%s)" % (cwd, tg, cfg[2], cfg[0], cfg[1])
+    for (ti, root, children, targets, cfg, runs), (mcode, mspec) in zip(groups, vals):
+        rs = res[pos:pos + len(runs)]
+        pos += len(runs)
+        st["groups"] += 1
+        st["runs"] += len(runs)
+        st["max_matrix"] = max(st["max_matrix"], len(runs))
+        stats["evaluations"] += len(runs)
+        if len(targets) > 1:
+            st["multi_target_groups"] += 1
+        bad = [(run, r) for run, r in zip(runs, rs) if "error" in r or r.get("failed")]
+        if bad:
+            (cwd, tg), r = bad[0]
+            nviol += 1
+            if nviol <= 3:
+                ck.violation("CollectPythonFiles fails on existing targets %s (cwd %s) of a tree with symbolic links: %s" % (tg, cwd, r.get("message") or r.get("error")),
+                             {"kind": "linkmatrix", "tree": children, "root": root, "cwd": cwd, "targets": tg, "include": cfg[0], "exclude": cfg[1], "recursive": cfg[2]})
+            continue
+        lists = [[abs_loc(cwd, p) for p in r["files"]] for (cwd, tg), r in zip(runs, rs)]
+        sets = [sorted(set(l)) for l in lists]
+        ref = lm_majority(sets)
+        replay = {"kind": "linkmatrix", "tree": children, "root": root, "include": cfg[0], "exclude": cfg[1], "recursive": cfg[2],
+                  "how": "entries ('F', name) / ('D', name, children) / ('L', name, file|dir|dangling, entries behind a directory link, link text); "
+                         "cd cwd, FileReader.CollectPythonFiles(targets, recursive, include, exclude) — pyscn-verif op 'collect' — or pyscn analyze <targets>"}
+        differ = [i for i, s in enumerate(sets) if s != sets[ref]]
+        if differ:
+            nviol += 1
+            if nviol <= 3:
+                i = differ[0]
+                only_ref = [os.path.relpath(x, root) for x in sorted(set(sets[ref]) - set(sets[i]))]
+                only_i = [os.path.relpath(x, root) for x in sorted(set(sets[i]) - set(sets[ref]))]
+                rp = dict(replay, cwd=runs[i][0], targets=runs[i][1], other_cwd=runs[ref][0], other_targets=runs[ref][1], files_this=sets[i], files_other=sets[ref],
+                          link_texts={os.path.relpath(x, root): os.readlink(x) for x in sorted(set(sets[ref]) ^ set(sets[i])) if os.path.islink(x)},
+                          disagreeing_runs=len(differ), runs_in_matrix=len(runs))
+                ck.violation("the analysed set depends on the working directory / the spelling of the target (tree with symbolic links): [%s] selects %d files, [%s] selects %d "
+                             "(%d of the %d runs of this matrix differ from the most frequent result); only in the first %s, only in the second %s"
+                             % (cmdline(runs[ref][0], runs[ref][1], cfg), len(sets[ref]), cmdline(runs[i][0], runs[i][1], cfg), len(sets[i]), len(differ), len(runs),
+                                only_ref[:6], only_i[:6]), rp, independent=True)
+            continue
+        dups = [i for i, l in enumerate(lists) if len(l) != len(set(l))]
+        if dups:
+            nviol += 1
+            if nviol <= 3:
+                i = dups[0]
+                d = sorted({x for x in lists[i] if lists[i].count(x) > 1})
+                ck.violation("a file is collected more than once for targets %s (cwd %s) of a tree with symbolic links: %s" % (runs[i][1], runs[i][0], [os.path.relpath(x, root) for x in d[:4]]),
+                             dict(replay, cwd=runs[i][0], targets=runs[i][1], impl=rs[i]["files"]), independent=True)
+            continue
+        common = sets[ref]
+        st["links_in_common_sets"] += sum(1 for x in common if is_link(x))
+        spec = sorted({abs_loc(root, loc_str(x)[1:] or ".") for x in mspec})
+        model = None if mcode is None else sorted({abs_loc(root, loc_str(x)[1:] or ".") for x in mcode[1]})
+        if common != spec:
+            extra, missing = sorted(set(common) - set(spec)), sorted(set(spec) - set(common))
+            e = ck.match_known({"part": "links", "cause": "file-link", "follow": False})
+            if e and common == model and not missing and all(is_link(x) for x in extra):
+                stats["known_link_cases"] = stats.get("known_link_cases", 0) + 1
+                ck.known_finding(e)
+            else:
+                nviol += 1
+                if nviol <= 3:
+                    ck.violation("tree with symbolic links, targets %s, the same from every working directory and spelling: analysed but should not be %s; should be analysed but are not %s"
+                                 % (runs[0][1], [os.path.relpath(x, root) for x in extra[:6]], [os.path.relpath(x, root) for x in missing[:6]]),
+                                 dict(replay, cwd=runs[0][0], targets=runs[0][1], impl=common, spec=spec, model=model))
+        elif common != model:
+            ck.broken_ties.append("link matrix: targets %s: CollectPythonFiles selects %s, model Cli/FileSelLinks.v code_view says %s" % (runs[0][1], common[:8], (model or [])[:8]))
+    # ---- a link to a directory named as the target itself: with and without a trailing slash, from several working directories -------
+    dl_reqs, dl_groups = [], []
+    for ti, (root, children, elsewhere, ldirs) in enumerate(trees):
+        if not thorough and ti not in (0, 2):
+            continue
+        ldir = os.path.join(root, *ldirs[-1])
+        for name in ("r_dl", "a_dl", "r_dl_up", "a_dl_up", "r_dl_out", "a_dl_out", "r_mod.py", "a_mod.py"):
+            link = os.path.join(ldir, name)
+            runs = []
+            for cwd in (ldir, root, elsewhere):
+                rel = os.path.relpath(link, cwd)
+                for sp in (rel, link, rel + "/", link + "/", rel + "/.", "./" + rel if not rel.startswith(".") else rel + "//"):
+                    runs.append((cwd, sp))
+            dl_groups.append((ti, root, children, link, runs))
+            dl_reqs += [{"op": "collect", "cwd": cwd, "targets": [sp], "include": ["**/*.py"], "exclude": [], "recursive": True} for cwd, sp in runs]
+    dl_res = lib.driver(dl_reqs)
+    pos = 0
+    for ti, root, children, link, runs in dl_groups:
+        rs = dl_res[pos:pos + len(runs)]
+        pos += len(runs)
+        stats["evaluations"] += len(runs)
+        st["dir_link_target_runs"] = st.get("dir_link_target_runs", 0) + len(runs)
+        outs = [None if ("error" in r or r.get("failed")) else sorted(abs_loc(cwd, p) for p in r["files"]) for (cwd, sp), r in zip(runs, rs)]
+        if all(o == outs[0] for o in outs):
+            continue
+        slash = [o for (cwd, sp), o in zip(runs, outs) if sp.endswith("/") or sp.endswith("/.")]
+        plain = [o for (cwd, sp), o in zip(runs, outs) if not (sp.endswith("/") or sp.endswith("/."))]
+        behind = sorted(os.path.join(link, os.path.relpath(os.path.join(dp, f), os.path.realpath(link)))
+                        for dp, _, fs in os.walk(os.path.realpath(link)) for f in fs if f.endswith(".py"))
+        e = ck.match_known({"part": "linkmatrix", "cause": "dir-link-target-trailing-slash"})
+        if e and all(o == [] for o in plain) and all(o == behind for o in slash):
+            stats["known_dir_link_target_cases"] = stats.get("known_dir_link_target_cases", 0) + 1
+            ck.known_finding(e)
+            continue
+        nviol += 1
+        if nviol <= 3:
+            ref = lm_majority(outs)
+            i = [k for k, o in enumerate(outs) if o != outs[ref]][0]
+            ck.violation("a symbolic link to a directory named as the target: [cd %s && CollectPythonFiles([%r])] selects %s, [cd %s && CollectPythonFiles([%r])] selects %s"
+                         % (runs[ref][0], runs[ref][1], outs[ref], runs[i][0], runs[i][1], outs[i]),
+                         {"kind": "linkmatrix-dirlink-target", "tree": children, "root": root, "link": link, "link_text": os.readlink(link), "cwd": runs[i][0], "targets": [runs[i][1]],
+                          "other_cwd": runs[ref][0], "other_targets": [runs[ref][1]], "include": ["**/*.py"], "exclude": [], "recursive": True}, independent=True)
+    # ---- the command itself: files of the report, summary.total_files and exit status over working directories x spellings -----------
+    ncli = 0
+    for ti, (root, children, elsewhere, ldirs) in enumerate(trees):
+        deepest = ldirs[-1]
+        ldir = os.path.join(root, *deepest)
+        tps = [deepest] if (not thorough and len(deepest) != 1) else [deepest, ()]
+        if ti == len(trees) - 1:
+            tps = [(), ("pkg",)] if not thorough else LM_CHAIN
+        for tp in tps:
+            target = os.path.join(root, *tp) if tp else root
+            cwds = [target, os.path.dirname(target), ldir, elsewhere, root]
+            cwds = [c for i, c in enumerate(cwds) if c not in cwds[:i]]
+            matrix = lm_matrix(root, target, cwds)
+            if not thorough:
+                # every working directory with its relative and its absolute spelling, the other spellings in turn
+                keep, seen = [], {}
+                for cwd, sp in matrix:
+                    n = seen.get(cwd, 0)
+                    seen[cwd] = n + 1
+                    if n < 2 or (n + ti + len(tp)) % 3 == 0:
+                        keep.append((cwd, sp))
+                matrix = keep
+            outs = []
+            for cwd, sp in matrix:
+                rep = os.path.join(cwd, ".pyscn")
+                shutil.rmtree(rep, ignore_errors=True)
+                args = ["analyze", "--json", "--no-open", "--select", "complexity", "--min-complexity", "1", sp]
+                rc, so, se = lib.pyscn(args, cwd)
+                data = None
+                rdir = os.path.join(rep, "reports")
+                if os.path.isdir(rdir):
+                    fs = sorted(f for f in os.listdir(rdir) if f.endswith(".json"))
+                    if fs:
+                        data = json.load(open(os.path.join(rdir, fs[-1])))
+                shutil.rmtree(rep, ignore_errors=True)
+                stats["evaluations"] += 1
+                st["cli_runs"] += 1
+                files = None if data is None else sorted(abs_loc(cwd, p) for p in report_files(data))
+                total = None if data is None else data["summary"]["total_files"]
+                outs.append([rc, total, files])
+            ref = lm_majority(outs)
+            differ = [i for i, o in enumerate(outs) if o != outs[ref]]
+            if differ:
+                nviol += 1
+                ncli += 1
+                if ncli <= 2:
+                    i = differ[0]
+                    fa, fb = set(outs[ref][2] or []), set(outs[i][2] or [])
+                    ck.violation("pyscn analyze on a tree with symbolic links depends on the working directory / the spelling of the target: `cd %s && pyscn analyze %s` gives exit %s, "
+                                 "total_files %s, %d files in the report; `cd %s && pyscn analyze %s` gives exit %s, total_files %s, %d files (%d of %d runs differ from the most frequent result); "
+                                 "only in the first %s, only in the second %s"
+                                 % (matrix[ref][0], matrix[ref][1], outs[ref][0], outs[ref][1], len(fa), matrix[i][0], matrix[i][1], outs[i][0], outs[i][1], len(fb), len(differ), len(outs),
+                                    [os.path.relpath(x, root) for x in sorted(fa - fb)[:6]], [os.path.relpath(x, root) for x in sorted(fb - fa)[:6]]),
+                                 {"kind": "linkmatrix-cli", "tree": children, "root": root, "cwd": matrix[i][0], "args": ["analyze", "--json", "--select", "complexity", "--min-complexity", "1", matrix[i][1]],
+                                  "other_cwd": matrix[ref][0], "other_target": matrix[ref][1], "this": outs[i], "other": outs[ref],
+                                  "link_texts": {os.path.relpath(x, root): os.readlink(x) for x in sorted(fa ^ fb) if os.path.islink(x)},
+                                  "how": "entries ('F', name) / ('D', name, children) / ('L', name, file|dir|dangling, entries behind a directory link, link text)"}, independent=True)
+    stats["linkmatrix"] = st
+    stats["disagreements"] += nviol
+
+
 def cli_errors(ck, stats):
     """Targets that cannot be analysed: the run says so and writes no report that looks like a result."""
     base = lib.fresh_dir("c18_cli")
@@ -1125,6 +1452,7 @@ def main(tier):
             lattice_same_verdict(ck, cases, stats)
             e2e(ck, rng, 15 if thorough else 5, stats, d_inc, d_exc, thorough)
             links_part(ck, rng, stats, d_inc, d_exc, thorough)
+            link_matrix_part(ck, rng, stats, d_inc, d_exc, thorough)
             cli_errors(ck, stats)
         except Exception as e:  # the machinery itself broke: never silently pass
             ck.broken_ties.append("correspondence machinery failed: %s" % (str(e)[-1200:]))
@@ -1161,6 +1489,18 @@ def main(tier):
                 "list, recursive or all three differ, chosen so that applying it would change the selection), the target without any "
                 "configuration (root and a directory inside, spelled absolutely and as ../..) and with its own / a --config configuration: "
                 "the patterns in force are those of the target's configuration (rule of C17 with the working directory never consulted), else the built-in ones. "
+                "link matrix: 5 trees (links in the directory at depth 0, 1, 2, 3 of proj/pkg/deep/er, and in all four) holding, each with a relative "
+                "and with an absolute link text, links to a .py file of the same directory, of a directory below, of the sibling directory through "
+                "'..' (outside the project at depth 0), outside the project, './x', a link to a link, a text file under a Python name, a Python file "
+                "under another name, .pyi, test_*, dangling links (same directory, '..', missing directory) and links to directories (plain and "
+                "Python file name; below, through '..', outside) x every target at or above the link directory x working directory (target, its "
+                "parent, the link directory, a directory below it, project root, its parent, an unrelated directory, a directory outside, /) x "
+                "spelling (relative, absolute, ./, trailing slash, ../<cwd>/rel, shared/../rel) x pattern lists / recursive: the set selected by "
+                "CollectPythonFiles must be identical over the whole matrix (decided on the implementation alone), each path once (also for "
+                "target lists [target, link directory] in both orders and the target twice in two spellings), the common set then compared with "
+                "Cli/FileSelLinks.v (code_view / specification with follow_symlinks = false; links to files = C18-G1); pyscn analyze on the same "
+                "trees over working directories x spellings: exit status, summary.total_files and the files of the report identical; a link to "
+                "a directory named as the target itself with and without trailing slash (C18-G5). "
                 "distinct = distinct (tree, cwd, targets, patterns, recursive)" % (
                     5 if thorough else 4, "alone, before and after every other atom, and in triples" if thorough else "alone and before and after each of 13 core atoms",
                     len(LATTICE_NAMES), len(LATTICE_SLASHLESS), len(LATTICE_PATHS)),
@@ -1170,6 +1510,8 @@ def main(tier):
                                    e2e_full_syntax_runs=stats.get("e2e_full_syntax_runs", 0),
                                    **{k: v for k, v in sorted(stats.items()) if k.startswith("e2e_foreign_cwd")},
                                    lattice_patterns=len(LATTICE_SLASHLESS) + len(LATTICE_PATHS), lattice_target_pairs=stats.get("lattice_target_pairs", 0),
+                                   **{"linkmatrix_" + k: v for k, v in sorted(stats.get("linkmatrix", {}).items())},
+                                   known_link_cases=stats.get("known_link_cases", 0), known_dir_link_target_cases=stats.get("known_dir_link_target_cases", 0),
                                    known_class_separator_cases=stats.get("known_class_separator_cases", 0),
                                    unit_class_separator_skipped=stats.get("unit_class_separator_skipped", 0),
                                    collect_cases_full_syntax=sum(1 for c in cases if any(ch in q for q in c.inc + c.exc for ch in "[]{}\\")), **gstats),
@@ -1181,6 +1523,8 @@ def main(tier):
                    "a separator; = Cli/Glob.v on patterns without [ ] { } \\, proved) and Cli/FileSel.v "
                    "(service/file_reader.go; filepath.Clean/Join/Abs modelled, filepath.Rel(dir, Join(dir, r)) = r and filepath.Walk "
                    "order assumed), bound to the code by this differential test",
-                   "file system without symlinks, unreadable entries or non-ASCII names; every `x/..` in a spelling goes through an existing directory"]
+                   "file system without unreadable entries or non-ASCII names; symbolic links only in the link parts (link kinds file / directory / dangling of "
+                   "Cli/FileSelLinks.v; the link text is not modelled: what a link points to does not depend on the working directory); "
+                   "every `x/..` in a spelling goes through an existing directory that is no link"]
     ck.finish(assumptions=["targets exist or the run fails as a whole", "patterns within the compared doublestar domain (xpat_ok: well-formed, none of match.go's end-of-name quirks)",
-                           "no symbolic links; names are ASCII without '/'", "a file argument is spelled with the file name last"])
+                           "symbolic links only as entries below the target (a link named as the target: C18-G5); names are ASCII without '/'", "a file argument is spelled with the file name last"])
